@@ -81,8 +81,8 @@ func (c *Ctx) mapLookup(st *State, m *MapRef, key Value, zero Value) (Value, *Te
 		return zero, tt.F
 	}
 	mv := c.mapVal(st, m)
-	res := zero
 	ok := tt.F
+	var alts []Alt
 	for i := len(mv.entries) - 1; i >= 0; i-- {
 		e := mv.entries[i]
 		if e.present.IsFalse() {
@@ -92,10 +92,16 @@ func (c *Ctx) mapLookup(st *State, m *MapRef, key Value, zero Value) (Value, *Te
 		if hit.IsFalse() {
 			continue
 		}
-		res = c.merge(hit, e.v, res)
+		alts = append(alts, Alt{hit, e.v})
 		ok = tt.Or(hit, ok)
 	}
-	return res, ok
+	if len(alts) == 0 {
+		return zero, tt.F
+	}
+	if !ok.IsTrue() {
+		alts = append(alts, Alt{tt.Not(ok), zero})
+	}
+	return c.mergeAltsAny(alts), ok
 }
 
 func (c *Ctx) mapUpdate(st *State, m *MapRef, key, val Value) {
@@ -294,18 +300,26 @@ func (c *Ctx) execNext(fs *FState, x *ssa.Next) *FState {
 	}
 	var okT *Term
 	var kV, vV Value
-	var iterAlts []Alt
+	var iterAlts, kAlts, vAlts []Alt
 	for i := len(outs) - 1; i >= 0; i-- {
 		oc := outs[i]
 		if okT == nil {
-			okT, kV, vV = oc.ok, oc.k, oc.v
+			okT = oc.ok
 		} else {
 			okT = tt.Ite(oc.g, oc.ok, okT)
-			kV = c.merge(oc.g, oc.k, kV)
-			vV = c.merge(oc.g, oc.v, vV)
 		}
 		iterAlts = append(iterAlts, Alt{oc.g, oc.newIter})
 	}
+	for _, oc := range outs {
+		if oc.k != nil {
+			kAlts = append(kAlts, Alt{oc.g, oc.k})
+		}
+		if oc.v != nil {
+			vAlts = append(vAlts, Alt{oc.g, oc.v})
+		}
+	}
+	kV = c.mergeAltsAny(kAlts)
+	vV = c.mergeAltsAny(vAlts)
 	ni := c.mkUnion(iterAlts)
 	fs.st.heap.set(p.obj, &Obj{v: ni, label: "iter", birth: o.birth})
 	c.setReg(fs, x, &Tuple{v: []Value{okT, kV, vV}})
@@ -317,7 +331,7 @@ func (c *Ctx) concretizeIntPure(t *Term) []iteLeaf {
 	if t.IsConst() {
 		return []iteLeaf{{c.tt.T, t.val}}
 	}
-	if !isIteConstTree(t, 0) {
+	if !(t.ics > 0 && t.ics <= 4096) {
 		panic(engineErr("UNMODELLED non-enumerable integer"))
 	}
 	var out []iteLeaf
